@@ -1,4 +1,4 @@
-"""C24 Installed-package CONTENTS files round-trip; the file is replaced atomically.
+r"""C24 Installed-package CONTENTS files round-trip; the file is replaced atomically.
 
 Round trip (tasks "rt"):  a generated contents set (files with explicit md5 or with md5 computed lazily from a data
 source, float/int mtimes; symlinks; dirs; fifos; devices) is added to `ContentsFile(path, mutable=True, create=True)`
@@ -16,10 +16,17 @@ expected = the generated entries themselves: type, path, md5 + int(mtime) for fi
 path for dir/fifo/dev.  Only for the format-inherent ambiguity (a symlink *location* holding a standalone "->" token)
 expected is what the format defines (split at the first arrow), computed by ref_read(ref_write(case)).
 
-Atomic replace (tasks "crash"): for a generated (old file | absent, new set) pair every mutating filesystem event of
-`flush()` is enumerated with vf.crash (open/chmod/chown/rename x before/after/eio).  After each stop the CONTENTS file
-must be byte-identical to the old text (or absent if it was absent) or to the complete new text; a later plain
-flush() must produce the complete new text (leftover temp files do not wedge it).
+Atomic replace, three instruments:
+  * observer (every 4th rt seed, in-process): while flush() runs, one audit hook + sys.setprofile look at the CONTENTS
+    file after every C call and before every mutating filesystem event below the scratch dir; every content the file
+    ever has is what a crash at that instant leaves behind and must be the old text (absent if it was absent) or the
+    complete new text.  The same hook then injects one EIO at each event in turn: the file must stay old-or-new, a
+    flush() that returns normally must have produced the new text, and a following flush() must succeed.
+  * failing flush (every 4th rt seed): an entry whose line cannot be produced (md5 of a vanished file, a name that is
+    not UTF-8 encodable) sorts among the others; flush() raises part-way and the old file must be untouched.
+  * tasks "crash": real process death with vf.crash (fork): every event of flush() x before/after/eio, file compared
+    with old/new, then a plain flush() must recover.  fork costs 0.2-1.5 s per injection on this host, so only a few
+    (old, new) pairs per run go this way; breadth comes from the observer.
 
 Dropped w.r.t. DESIGN.md: nothing.  Added: reference writer/reader halves, lazily computed md5, device entries whose
 node is absent from / present on the live filesystem (`LookupFsDev` lstat()s the recorded path).
@@ -47,9 +54,10 @@ TECHNIQUE = (
 DESIGN_REF = "DESIGN.md §3 C24"
 LEVEL_TEXT = (
     "Generated-input search for the round trip (sampled contents sets, each checked against an independent codec in "
-    "three directions plus a write fixpoint). For the atomic-replace clause every Python-visible mutating filesystem "
-    "event of flush() is enumerated for each generated (old, new) pair with crash-before, crash-after-open and EIO, and "
-    "the CONTENTS bytes are compared with the old and the complete new text."
+    "three directions plus a write fixpoint). For the atomic-replace clause every state the CONTENTS file takes during "
+    "flush() is observed in-process (after each C call / before each filesystem event), one EIO is injected at every "
+    "event, flush() is made to fail part-way, and for a few pairs every event is enumerated with real process death "
+    "(fork, crash-before / crash-after-open / EIO); the bytes are compared with the old and the complete new text."
 )
 LEVEL_NOTE = (
     "Trusted: ref_write/ref_read in this module (CONTENTS line format as written by portage/pkgcore). Crash model: "
@@ -59,8 +67,8 @@ RULE = (
     "case = list of 1-8 entries (thorough up to 14) with unique normalised absolute paths built from segments over an "
     "alphabet with spaces (runs, leading/trailing in a segment), '-', '>', '->' fragments, Latin-1/CJK/astral/combining "
     "characters and Unicode spaces; symlink targets likewise plus standalone ' -> ' tokens; non-trivial = some path or "
-    "target contains a space, '->' or a non-ASCII character; distinct = distinct case JSON. crash cases add an old file "
-    "(absent / small / larger than the stdio buffer) and count one evaluation per (event, mode) injection"
+    "target contains a space, '->' or a non-ASCII character; distinct = distinct case JSON. observer/crash cases add an "
+    "old file (absent / small / larger than the stdio buffer) and count one evaluation per plain run and per injection"
 )
 ASSUMPTIONS = [
     "paths are absolute, normalised, valid Unicode without control characters (CONTENTS is a line-based UTF-8 text format)",
@@ -345,14 +353,16 @@ def diff_bucket(where, exp, got, entries):
     missing = sorted(set(exp) - set(got))
     extra = sorted(set(got) - set(exp))
     if missing or extra:
-        if any(m + "\n" in got for m in missing):
+        if any(x.endswith("\n") for x in extra):
             return f"{where}:newline-kept-in-path", f"missing={missing[:3]!r} extra={extra[:3]!r}"
-        # trailing whitespace eaten from a path?
-        for m in missing:
-            stripped = os.path.normpath(m.rstrip())
-            if m.rstrip() != m and stripped in got and exp[m][0] in ("dir", "fifo", "dev"):
-                t = exp[m][0]
-                return f"{where}:path-trailing-whitespace-lost", f"{t} path {m!r} read back as {stripped!r}"
+        # trailing whitespace eaten from the path of a dir/fif/dev line (the path is the end of the line)?  Also when the
+        # shortened path collides with another entry, so decide on the input rather than on the symptom.
+        for e in entries:
+            m = e["path"]
+            if e["type"] in ("dir", "fifo", "dev") and m.rstrip() != m:
+                stripped = os.path.normpath(m.rstrip() or "/")
+                if m not in got or (stripped in got and stripped not in exp):
+                    return f"{where}:path-trailing-whitespace-lost", f"{e['type']} path {m!r} read back as {stripped!r}"
         t = exp[missing[0]][0] if missing else got[extra[0]][0]
         return f"{where}:keys:{t}", f"missing={missing[:3]!r} extra={extra[:3]!r}"
     for p in sorted(exp):
@@ -884,14 +894,14 @@ def plan(tier, seed):
     tasks = []
     if tier == "quick":
         for _ in range(12):
-            tasks.append({"task": "rt", "examples": 1500, "maxn": 8})
+            tasks.append({"task": "rt", "examples": 500, "maxn": 8})
         for _ in range(4):
-            tasks.append({"task": "crash", "examples": 3, "maxn": 5})
+            tasks.append({"task": "crash", "examples": 2, "maxn": 5})
     else:
         for _ in range(24):
-            tasks.append({"task": "rt", "examples": 25000, "maxn": 14})
+            tasks.append({"task": "rt", "examples": 8000, "maxn": 14})
         for _ in range(8):
-            tasks.append({"task": "crash", "examples": 60, "maxn": 8})
+            tasks.append({"task": "crash", "examples": 20, "maxn": 8})
     return tasks
 
 
@@ -905,7 +915,7 @@ def run_task(ctx, task, **kw):
             if n % 4 == 1:
                 check_watch(ctx, dict(crash_case_from_seed(n, kw["maxn"]), watch=True), mods)
 
-        core.hyp_run(ctx, SEEDS, one, kw["examples"], chunk=500)
+        core.hyp_run(ctx, SEEDS, one, kw["examples"], chunk=100)
     elif task == "crash":
         rnd = random.Random(ctx.seed * 1_000_003 + ctx.shard)  # case seeds only; forks are too slow here for hypothesis chunks
         for _ in range(kw["examples"]):
